@@ -71,6 +71,10 @@ mod entry;
 #[allow(clippy::ptr_offset_with_cast)]
 #[allow(clippy::assign_op_pattern)]
 mod key;
+#[cfg(libp2p_verif)]
+pub mod verif_c37;
+#[cfg(libp2p_verif)]
+pub mod verif_c38;
 
 use std::{collections::VecDeque, num::NonZeroUsize, time::Duration};
 
